@@ -12,7 +12,9 @@ MIB = 2 ** 20
 #   A: 490 MiB (initial block A0 stays empty, A1 = 50 units)   B: 100 B (B0), then 480 MiB (does not fit: file 0 fully allocated, B1 in file 1)
 #   A: 20 MiB (A1 sealed, A2 in file 1)
 PREFIX = [('A', 490 * MIB), ('B', 100), ('B', 480 * MIB), ('A', 20 * MIB)]
-SUFFIX_OPS = ['nA', 'PA', 'bA', 'nB', 'pA']
+SUFFIX_OPS = ['nA', 'PA', 'bA', 'nB', 'pA', 'oA', 'oB']
+SMALL_PREFIX = [('A', 300), ('A', 400), ('A', 500)]
+SMALL_OPS = ['nA', 'X', 'PA', 'oA']
 
 
 def mk(docs, job, cfg):
@@ -47,7 +49,8 @@ def mk(docs, job, cfg):
             stored.setdefault((inst, topic), []).append((uid, locate(insts[inst], topic)))
             delivered.setdefault((inst, topic), 0)
             uid += 1
-        for topic, size in PREFIX:
+        small = job.get('prefix') == 'small'
+        for topic, size in (SMALL_PREFIX if small else PREFIX):
             append('1', topic, size)
         file0 = stored[('1', 'A')][0][1]
         if two:
@@ -57,19 +60,44 @@ def mk(docs, job, cfg):
             # instance 2 builds three sealed blocks of topic C whose ids collide with instance 1's ids 1..3
             for size in (100, 10 * MIB, 100, 10 * MIB, 100, 10 * MIB):
                 append('2', 'C', size)
-        alphabet = SUFFIX_OPS if not two else ['nC', 'PC', 'bC']
+        alphabet = (SMALL_OPS if small else SUFFIX_OPS) if not two else ['nC', 'PC', 'bC']
         suffix = []
         budgets = []
+        offsets = []
         for i in range(L):
             if fixed:
                 op = fixed[i]
             else:
                 op = alphabet[x.choose(len(alphabet), 'op%d' % i)]
             suffix.append(op)
-            kind, topic = op[0], op[1]
+            if op == 'X':
+                # clean shutdown, fresh process, reopen (the reclaimer of the new process sees what recovery reports)
+                ops_out.append(dict(op='restart_process'))
+                ops_out.append(dict(op='open', inst='1', key='ns1'))
+                engine.drop_value(x, insts['1'])
+                envmodel.reset_process(x)
+                r = engine.open_walrus(x, 'StrictlyAtOnce', None, schedule='Milliseconds', root='/d/ns1')
+                if r.variant != 'Ok':
+                    return dict(job=job, verdict='cex', kind='reopen-failed', detail='reopen failed', suffix=suffix, ops=ops_out)
+                insts['1'] = r.f[0]
+                kind, topic, k = 'X', None, 0
+            else:
+                kind, topic = op[0], op[1]
             inst = '2' if two else '1'
             w = insts[inst]
-            if kind in ('n', 'p'):
+            if kind == 'o':
+                b = BV(bv64(job['budgets'][len(budgets)]), 64) if (fixed and job.get('budgets')) else x.symbv('budget%d' % len(budgets))
+                budgets.append(b)
+                off = BV(bv64(job['offsets'][len(offsets)]), 64) if (fixed and job.get('offsets')) else x.symbv('offset%d' % len(offsets))
+                offsets.append(off)
+                res = engine.api(x, w, 'batch_read_for_topic', [PStr(topic), b, x.flip('offset_ck%d' % i) if not fixed else False, Some(off)])
+                ops_out.append(dict(op='batch_read', inst=inst, topic=topic, checkpoint=False, budget='budget%d' % (len(budgets) - 1), start_offset='offset%d' % (len(offsets) - 1)))
+                if res.variant == 'Panic':
+                    return dict(job=job, verdict='cex', kind='panic', detail='offset read panicked', suffix=suffix, ops=ops_out)
+                k = 0
+            if kind in ('X', 'o'):
+                pass
+            elif kind in ('n', 'p'):
                 res = engine.api(x, w, 'read_next', [PStr(topic), kind == 'n'])
                 ops_out.append(dict(op='read_next', inst=inst, topic=topic, checkpoint=(kind == 'n')))
                 if res.variant != 'Ok':
@@ -94,11 +122,11 @@ def mk(docs, job, cfg):
             for f in sent:
                 pending = [(it, u) for it, lst in stored.items() for j, (u, ff) in enumerate(lst) if ff == f and j >= delivered[it]]
                 if pending:
-                    wit = x.model_values(dict(('budget%d' % j, b.t) for j, b in enumerate(budgets))) or {}
+                    wit = x.model_values(dict([('budget%d' % j, b.t) for j, b in enumerate(budgets)] + [('offset%d' % j, o_.t) for j, o_ in enumerate(offsets)])) or {}
                     return dict(job=job, verdict='cex', kind='premature-delete', suffix=suffix, ops=ops_out, witness=wit, file=f,
                                 detail='file %s handed to the deletion channel after %s although entries %s stored in it are unconsumed'
                                        % (f.split('/')[-1], suffix, [u for _, u in pending]))
-        wit = x.model_values(dict(('budget%d' % j, b.t) for j, b in enumerate(budgets))) or {}
+        wit = x.model_values(dict([('budget%d' % j, b.t) for j, b in enumerate(budgets)] + [('offset%d' % j, o_.t) for j, o_ in enumerate(offsets)])) or {}
         snap = x.deref(x.call('FileStateTracker', 'get_state_snapshot', [PStr(file0)]))
         cnt = None
         if snap.variant == 'Some':
